@@ -4,7 +4,7 @@ import re
 
 from ..model import UNKNOWN, ClassRef, FuncRef, norm, walk_no_nested
 from ..layout import LayoutEngine, Undecided
-from .. import common, spec
+from .. import common, spec, flow
 from ..spec import vb
 from . import c04, c20
 
@@ -16,6 +16,8 @@ def run(ctx):
     rule_header(ctx, repo)
     rule_verify(ctx, repo)
     rule_recid_search(ctx, repo)
+    rp = ctx.rule('C14.P1', 'the address version used when verifying follows the selected chain (read at call time)', engine='OWN', floor=1)
+    common.rule_call_time_params(rp, repo, files={'bitcoin/wallet.py', 'bitcoin/signmessage.py'})
     c04.common_hash_rule(ctx, repo, 'C14.H1')
     ctx.not_decided += ['public-key recovery mathematics (libcrypto)', 'that a different key or message yields a different recovered key (ECDSA)']
     ctx.assume('libcrypto implements SEC1 recovery; base64 is lossless')
@@ -68,69 +70,113 @@ def rule_header(ctx, repo):
         return
     sigv, recv = [norm(x) for x in call.targets[0].elts]
     r.check(norm(call.value.args[0]) == '%s.GetHash()' % msg, 'sign:digest', common.site_of(sm, call), 'signs message.GetHash()', 'signs `%s`' % norm(call.value.args[0]))
-    # meta = 27 + i ; if key.is_compressed: meta += 4
-    base = None
-    plus = []
-    metav = None
-    for n in walk_no_nested(sm.node):
-        if isinstance(n, ast.Assign) and isinstance(n.targets[0], ast.Name) and c20.canon(n.value) == c20.canon(ast.parse('27 + %s' % recv, mode='eval').body):
-            metav = n.targets[0].id
-            base = n
-    if metav is None:
-        r.violated('sign:header-base', sm.site, 'header byte is not computed as 27 + recovery id')
-        return
-    r.ok('sign:header-base', common.site_of(sm, base), '27 + recid')
-    for n in walk_no_nested(sm.node):
-        if isinstance(n, ast.If):
-            for b in n.body:
-                if isinstance(b, ast.AugAssign) and norm(b.target) == metav and isinstance(b.op, ast.Add):
-                    plus.append((norm(n.test), repo.fold(b.value, sm.module)))
-    r.check(plus == [('%s.is_compressed' % key, 4)], 'sign:header-compressed', sm.site, '+4 iff the key is compressed', 'compression flag handling is %s' % plus)
-    rets = [n for n in walk_no_nested(sm.node) if isinstance(n, ast.Return)]
-    r.check(len(rets) == 1 and norm(rets[0].value) == 'base64.b64encode(bytes([%s]) + %s)' % (metav, sigv), 'sign:frame', sm.site, 'base64(header || r || s)',
-            'SignMessage returns `%s`' % (norm(rets[0].value) if rets else None))
+    # the frame, read along both values of key.is_compressed: base64(bytes([27 + recid (+4)]) + sig)
+    from ..table import Tracer
+    from ..rules import canon_arith, equiv as _equiv
+    flag = '%s.is_compressed' % key
+    frames = {}
+    for comp in (True, False):
+        tr = Tracer(repo, sm.module, atom=lambda e, p, comp=comp: comp if norm(e) in (flag, flag + '()') else None)
+        ps = [p for p in tr.trace(sm.node.body, {}) if p.end == 'return']
+        if len(ps) != 1:
+            r.undecided('sign:frame', sm.site, 'SignMessage has %d returning paths for is_compressed=%s' % (len(ps), comp))
+            return
+        pd = common.path_defs(ps[0])
+        v_ = common.resolved(sm, ps[0].endnode.value, repo, defs=pd)
+        # a conditional expression on the flag resolves to its arm
+        class T(ast.NodeTransformer):
+            def visit_IfExp(self, n):
+                self.generic_visit(n)
+                if norm(n.test) in (flag, flag + '()'):
+                    return n.body if comp else n.orelse
+                return n
+        v_ = ast.fix_missing_locations(T().visit(v_))
+        frames[comp] = v_
+    ok = {}
+    for comp in (True, False):
+        want = 'base64.b64encode(bytes([27 + %s%s]) + %s)' % (recv, ' + 4' if comp else '', sigv)
+        ok[comp] = canon_arith(frames[comp]) == canon_arith(want)
+    if ok[True] and ok[False]:
+        r.ok('sign:header-base', sm.site, '27 + recid')
+        r.ok('sign:header-compressed', sm.site, '+4 iff the key is compressed')
+        r.ok('sign:frame', sm.site, 'base64(header || r || s)')
+    else:
+        texts = {c: ast.unparse(frames[c])[:120] for c in frames}
+        shaped = all('b64encode' in t for t in texts.values())
+        if shaped:
+            r.violated('sign:header-base' if not ok[False] else 'sign:header-compressed', sm.site,
+                       'SignMessage frames the signature as `%s` for an uncompressed key and `%s` for a compressed one; the format is base64(bytes([27 + recid (+4 iff compressed)]) + r||s)' % (texts[False], texts[True]))
+        else:
+            r.undecided('sign:frame', sm.site, 'SignMessage returns `%s`' % texts)
     # parser
     rc = repo.get_function('bitcoin.core.key.CPubKey.recover_compact')
     hv, sv = rc.params[1], rc.params[2]
-    guards = [norm(n.test) for n in walk_no_nested(rc.node) if isinstance(n, ast.If)]
-    r.check('len(%s) != 65' % sv in guards, 'parse:length', rc.site, 'exactly 65 bytes', 'recover_compact does not insist on 65 bytes (guards: %s)' % guards)
-    defs = {norm(n.targets[0]): n.value for n in walk_no_nested(rc.node) if isinstance(n, ast.Assign) and len(n.targets) == 1}
-    want = {'recid': '(%s[0] - 27) & 3' % sv, 'compressed': '(%s[0] - 27) & 4 != 0' % sv, 'sigR': '%s[1:33]' % sv, 'sigS': '%s[33:65]' % sv}
-    for k, w in want.items():
-        got = norm(defs[k]) if k in defs else None
-        w = norm(ast.parse(w, mode='eval').body)
-        r.check(got == w, 'parse:%s' % k, rc.site, w, '%s is parsed as `%s`, the frame written by SignMessage needs `%s`' % (k, got, w))
-    # what the recovery is called with
+    from ..rules import canon_guard as _cg, canon_text as _ct
+    guards = [_cg(n.test, repo, rc.module) for n in walk_no_nested(rc.node) if isinstance(n, ast.If) and flow.always_raises(n.body)]
+    r.check(_ct('len(%s) != 65' % sv) in guards, 'parse:length', rc.site, 'exactly 65 bytes', 'recover_compact does not insist on 65 bytes (guards: %s)' % guards)
+    # what the recovery is called with, with the locals resolved: recover(r, s, digest, len(digest), recid)
     calls = [n for n in walk_no_nested(rc.node) if isinstance(n, ast.Call) and isinstance(n.func, ast.Attribute) and n.func.attr == 'recover']
-    ok = len(calls) == 1 and [norm(a) for a in calls[0].args[:5]] == ['sigR', 'sigS', hv, 'len(%s)' % hv, 'recid']
-    r.check(ok, 'parse:recover-args', rc.site, 'recover(r, s, digest, len, recid)', 'recover is called with %s' % ([norm(a) for a in calls[0].args] if calls else None))
-    setc = [norm(n) for n in walk_no_nested(rc.node) if isinstance(n, ast.Call) and isinstance(n.func, ast.Attribute) and n.func.attr == 'set_compressed']
-    r.check(len(setc) == 1 and setc[0].endswith('.set_compressed(compressed)'), 'parse:compression', rc.site, 'recovered key serialised in the signer\'s form', 'set_compressed calls: %s' % setc)
+    if len(calls) != 1 or len(calls[0].args) < 5:
+        r.undecided('parse:recover-args', rc.site, 'no single recover(...) call')
+    else:
+        a = calls[0].args
+        for k_, e_, w_ in (('sigR', a[0], '%s[1:33]' % sv), ('sigS', a[1], '%s[33:65]' % sv), ('recid', a[4], '(%s[0] - 27) & 3' % sv)):
+            common.verdict3(r, 'parse:%s' % k_, common.site_of(rc, calls[0]), repo, rc, e_, w_, k_)
+        ok = common.value_match(repo, rc, a[2], hv) == 'same' and common.value_match(repo, rc, a[3], 'len(%s)' % hv) == 'same'
+        r.check(ok, 'parse:recover-args', common.site_of(rc, calls[0]), 'recover(r, s, digest, len, recid)', 'recover is called with %s' % [norm(x) for x in a])
+    setc = [n for n in walk_no_nested(rc.node) if isinstance(n, ast.Call) and isinstance(n.func, ast.Attribute) and n.func.attr == 'set_compressed']
+    if len(setc) != 1 or len(setc[0].args) != 1:
+        r.violated('parse:compression', rc.site, 'set_compressed calls: %s' % [norm(x) for x in setc])
+    else:
+        ce = common.resolved(rc, setc[0].args[0], repo)
+        v_ = _equiv(ce, '(%s[0] - 27) & 4 != 0' % sv)
+        if v_ is True:
+            r.ok('parse:compressed', common.site_of(rc, setc[0]), 'bit 2 of (header - 27)')
+            r.ok('parse:compression', common.site_of(rc, setc[0]), 'recovered key serialised in the signer\'s form')
+        elif v_ is False or '[0]' in norm(ce):
+            r.violated('parse:compressed', common.site_of(rc, setc[0]), 'compressed is parsed as `%s`, the frame written by SignMessage needs `(%s[0] - 27) & 4 != 0`' % (norm(ce), sv))
+        else:
+            r.undecided('parse:compressed', common.site_of(rc, setc[0]), 'compressed is parsed as `%s`' % norm(ce))
 
 
 def rule_verify(ctx, repo):
     r = ctx.rule('C14.V1', 'VerifyMessage compares the P2PKH address text of the recovered key with the address text given', engine='MODEL', floor=4)
     vm = repo.get_function('bitcoin.signmessage.VerifyMessage')
     addr, msg, sig = vm.params
-    defs = {}
-    for n in walk_no_nested(vm.node):
-        if isinstance(n, ast.Assign) and len(n.targets) == 1:
-            defs.setdefault(norm(n.targets[0]), []).append(norm(n.value))
-    r.check(defs.get(sig) == ['base64.b64decode(%s)' % sig], 'decode', vm.site, 'base64 decoded', 'signature handling: %s' % defs.get(sig))
-    hv = [k for k, v in defs.items() if v == ['%s.GetHash()' % msg]]
-    r.check(len(hv) == 1, 'digest', vm.site, 'digest = message.GetHash()', 'no `x = message.GetHash()`')
-    pk = [k for k, v in defs.items() if hv and v == ['CPubKey.recover_compact(%s, %s)' % (hv[0], sig)]]
-    r.check(len(pk) == 1, 'recover', vm.site, 'key recovered from (digest, signature)', 'recovery call not found: %s' % defs)
     rets = [n for n in walk_no_nested(vm.node) if isinstance(n, ast.Return)]
+    # the recovery call with its arguments traced back: digest = message.GetHash(), signature = base64-decoded text
+    rcalls = [c for c in common.iter_calls(vm.node) if norm(c.func) == 'CPubKey.recover_compact' and len(c.args) == 2]
+    assigned = {}
+    for n in walk_no_nested(vm.node):
+        if isinstance(n, ast.Assign) and len(n.targets) == 1 and isinstance(n.targets[0], ast.Name):
+            assigned.setdefault(n.targets[0].id, []).append(n.value)
+
+    def origin(e):
+        for _ in range(4):
+            if isinstance(e, ast.Name) and len(assigned.get(e.id, [])) == 1:
+                e = assigned[e.id][0]
+            else:
+                break
+        return norm(e)
+    if len(rcalls) != 1:
+        r.violated('recover', vm.site, 'recovery call not found')
+        pk = []
+    else:
+        r.check(origin(rcalls[0].args[1]) == 'base64.b64decode(%s)' % sig, 'decode', vm.site, 'base64 decoded', 'signature handling: recover_compact is given `%s`' % origin(rcalls[0].args[1]))
+        r.check(origin(rcalls[0].args[0]) == '%s.GetHash()' % msg, 'digest', vm.site, 'digest = message.GetHash()', 'recover_compact is given the digest `%s`' % origin(rcalls[0].args[0]))
+        r.ok('recover', common.site_of(vm, rcalls[0]), 'key recovered from (digest, signature)')
+        pk = [norm(rcalls[0])]
     if pk and len(rets) == 1:
-        want = {'str(P2PKHBitcoinAddress.from_pubkey(%s)) == str(%s)' % (pk[0], addr), 'str(%s) == str(P2PKHBitcoinAddress.from_pubkey(%s))' % (addr, pk[0])}
         rv = rets[0].value
-        if norm(rv) in want:
+        rtext = ast.unparse(common.resolved(vm, rv, repo, defs={k: v[0] for k, v in assigned.items() if len(v) == 1 and k not in vm.params}))
+        inner = 'P2PKHBitcoinAddress.from_pubkey('
+        want_shapes = (rtext.startswith('str(' + inner) and rtext.endswith(') == str(%s)' % addr)) or (rtext.startswith('str(%s) == str(' % addr + inner))
+        if want_shapes and 'recover_compact' in rtext:
             r.ok('compare', common.site_of(vm, rets[0]), 'address text equality (version byte and checksum included)')
         elif isinstance(rv, ast.Compare) and not all(isinstance(x, ast.Call) and norm(x.func) == 'str' for x in [rv.left] + list(rv.comparators)):
             r.violated('compare', common.site_of(vm, rets[0]), 'VerifyMessage returns `%s`: comparing address objects compares only the 20-byte payload, so an address of another type with the same hash verifies' % norm(rv))
         else:
-            r.undecided('compare', common.site_of(vm, rets[0]), 'unrecognised comparison `%s`' % norm(rv))
+            r.undecided('compare', common.site_of(vm, rets[0]), 'unrecognised comparison `%s`' % rtext[:120])
         fv = repo.fold(ast.parse('P2PKHBitcoinAddress', mode='eval').body, vm.module)
         r.check(isinstance(fv, ClassRef) and fv.info.qualname == 'bitcoin.wallet.P2PKHBitcoinAddress', 'compare:class', vm.site, 'P2PKH address class', 'P2PKHBitcoinAddress resolves to %r' % (fv,))
     else:
@@ -147,16 +193,38 @@ def rule_recid_search(ctx, repo):
             defs.setdefault(norm(n.targets[0]), []).append(norm(n.value))
     for v in ('r_val', 's_val'):
         last = defs.get(v, [None])[-1]
-        r.check(last == "(b'\\x00' * 32 + %s)[-32:]" % v, 'pad:%s' % v, sc.site, 'left-padded to 32 bytes', '%s is finally `%s`' % (v, last))
-    # comparison inside the recid loop
+        goods = ("(b'\\x00' * 32 + %s)[-32:]" % v, "%s.rjust(32, b'\\x00')[-32:]" % v, "%s.rjust(32, b'\\x00')" % v, "(bytes(32) + %s)[-32:]" % v)
+        if last in goods:
+            r.ok('pad:%s' % v, sc.site, 'left-padded to 32 bytes')
+        elif last is not None and (v in last and ('32' in last or '31' in last or '33' in last)):
+            r.violated('pad:%s' % v, sc.site, '%s is finally `%s`; the frame needs it left-padded with zero bytes to exactly 32' % (v, last))
+        else:
+            r.undecided('pad:%s' % v, sc.site, '%s is finally `%s`' % (v, last))
+    # comparison inside the recid loop (a side may be a local holding `<key>.get_pubkey()` taken before the loop)
+    ldefs = common.local_defs(sc)
+
+    def pk_resolved(m):
+        m = ast.parse(ast.unparse(m), mode='eval').body
+        for n_ in ast.walk(m):
+            pass
+
+        class T(ast.NodeTransformer):
+            def visit_Name(self, n):
+                d = ldefs.get(n.id)
+                if isinstance(n.ctx, ast.Load) and isinstance(d, ast.Call) and isinstance(d.func, ast.Attribute) and d.func.attr == 'get_pubkey' and not d.args:
+                    return ast.parse(ast.unparse(d), mode='eval').body
+                return n
+        return ast.fix_missing_locations(T().visit(m))
     cmp_ = None
     for n in walk_no_nested(sc.node):
         if isinstance(n, ast.For):
             for m in ast.walk(n):
-                if isinstance(m, ast.Compare) and 'get_pubkey()' in norm(m):
-                    cmp_ = m
+                if isinstance(m, ast.Compare) and 'get_pubkey()' in norm(pk_resolved(m)):
+                    cmp_ = pk_resolved(m)
             rng = norm(n.iter)
-            r.check(rng in ('range(0, 4)', 'range(4)'), 'recid-range', common.site_of(sc, n), 'recid in 0..3', 'recid search over `%s`' % rng)
+            if not any(isinstance(m, ast.Compare) and 'get_pubkey()' in norm(pk_resolved(m)) for m in ast.walk(n)):
+                continue
+            r.check(repo.fold(n.iter, sc.module) == range(0, 4), 'recid-range', common.site_of(sc, n), 'recid in 0..3', 'recid search over `%s`' % rng)
     if cmp_ is None:
         r.undecided('recid-compare', sc.site, 'no key comparison in the recid loop')
     else:
@@ -173,12 +241,13 @@ def rule_recid_search(ctx, repo):
                 bad.append('%s (conversion form: %s)' % (norm(s), setc or 'as configured by the caller'))
         r.check(not bad, 'recid-compare', common.site_of(sc, cmp_), 'both keys serialised compressed',
                 'the recid search compares a compressed recovered key with %s: for an uncompressed signer no recid ever matches and signing raises ValueError' % bad)
+    loopvars = [n.target.id for n in walk_no_nested(sc.node) if isinstance(n, ast.For) and isinstance(n.target, ast.Name)]
     rets = [norm(n.value) for n in walk_no_nested(sc.node) if isinstance(n, ast.Return)]
-    r.check(rets == ['(r_val + s_val, i)'], 'result', sc.site, '(r || s, recid)', 'sign_compact returns %s' % rets)
+    r.check(len(rets) == 1 and rets[0] in ['(r_val + s_val, %s)' % lv for lv in loopvars], 'result', sc.site, '(r || s, recid)', 'sign_compact returns %s' % rets)
     ck = repo.get_function('bitcoin.wallet.CKey.sign_compact')
-    rets = [norm(n.value) for n in walk_no_nested(ck.node) if isinstance(n, ast.Return)]
-    r.check(rets == ['self._cec_key.sign_compact(%s)' % ck.params[1]], 'CKey.sign_compact', ck.site, 'delegates to the EC key', 'CKey.sign_compact returns %s' % rets)
+    common.verdict3(r, 'CKey.sign_compact', ck.site, repo, ck, common.returned_value(ck), 'self._cec_key.sign_compact(%s)' % ck.params[1], 'CKey.sign_compact returns')
     ic = repo.functions.get('bitcoin.core.key.CPubKey.is_compressed')
     if ic is not None:
-        rets = [norm(n.value) for n in walk_no_nested(ic.node) if isinstance(n, ast.Return)]
-        r.check(rets == ['len(self) == 33'], 'is_compressed', ic.site, 'len == 33', 'CPubKey.is_compressed is %s' % rets)
+        from ..rules import equiv_folded as _ef
+        e_ = common.return_expr(ic, inline_locals=True)
+        r.check(e_ is not None and _ef(e_, repo, ic.module, 'len(self) == 33', cls=ic.cls) is True, 'is_compressed', ic.site, 'len == 33', 'CPubKey.is_compressed is %s' % (norm(e_) if e_ is not None else None))
